@@ -15,6 +15,7 @@
   are observed by the check's isolated-worker run, not by these theorems.
 -/
 import Avra.Model.Build
+import Avra.Lemmas.Iter
 namespace Avra.Props.C16
 open Avra Avra.Model
 
@@ -289,6 +290,494 @@ theorem build_never_panics (fs : Fs) (src path : Str) (incs : List Str) :
       | (exact buildFromParsed_no_panic _ _ s h)
       | (simp at h; done)
       | (rename_i heq; simp only [Out.panic.injEq] at h; subst h; exact parseFile_no_panic _ _ _ _ _ heq)
+
+/-! ### termination within the explicit bounds: the only way the model gives up (`oof`) is the
+    expression parser's fuel -/
+
+theorem binEval_no_oof (op : BinOp) (l r : Int) : binEval op l r ≠ .oof := by
+  unfold binEval
+  cases op <;> simp only <;> (repeat' split) <;> simp [checked] <;> (repeat' split) <;> simp
+
+theorem unEval_no_oof (op : UnOp) (v : Int) : unEval op v ≠ .oof := by
+  unfold unEval
+  cases op <;> simp only <;> (repeat' split) <;> simp [checked] <;> (repeat' split) <;> simp
+
+theorem funcEval_no_oof (name : Str) (v : Int) : funcEval name v ≠ .oof := by
+  unfold funcEval
+  dsimp only
+  repeat' split
+  all_goals simp
+
+theorem evalWith_no_oof (sym : Str → EvalRes) (h : ∀ n, sym n ≠ .oof) : ∀ e, evalWith sym e ≠ .oof := by
+  intro e
+  induction e with
+  | ident n => simp only [evalWith]; exact h n
+  | const v => simp [evalWith]
+  | func f a iha ihb =>
+    cases f with
+    | ident name =>
+      simp only [evalWith]
+      cases ha : evalWith sym a with
+      | ok v => simp only; exact funcEval_no_oof _ _
+      | err k => simp
+      | oof => exact absurd ha ihb
+    | const v => simp [evalWith]
+    | func a b => simp [evalWith]
+    | bin o a b => simp [evalWith]
+    | un o a => simp [evalWith]
+  | bin op l r ihl ihr =>
+    simp only [evalWith]
+    cases hl : evalWith sym l with
+    | ok lv =>
+      simp only
+      cases hr : evalWith sym r with
+      | ok rv => simp only; exact binEval_no_oof _ _ _
+      | err k => simp
+      | oof => exact absurd hr ihr
+    | err k => simp
+    | oof => exact absurd hl ihl
+  | un op e ih =>
+    simp only [evalWith]
+    cases he : evalWith sym e with
+    | ok v => simp only; exact unEval_no_oof _ _
+    | err k => simp
+    | oof => exact absurd he ih
+
+theorem symAt_no_oof (c : Ctx) : ∀ (k : Nat) (n : Str), symAt c k n ≠ .oof := by
+  intro k
+  induction k with
+  | zero => intro n; simp only [symAt]; repeat' split <;> simp
+  | succ k ih =>
+    intro n
+    simp only [symAt]
+    split
+    · simp
+    · exact evalWith_no_oof _ ih _
+    · simp
+
+/-- expression evaluation never gives up: it is bounded by the size of the expression and by
+    MAX_SYMBOL_DEPTH -/
+theorem eval_no_oof (c : Ctx) (e : Expr) : eval c e ≠ .oof :=
+  evalWith_no_oof _ (symAt_no_oof c maxSymbolDepth) e
+
+/-- the one unproved ingredient: the fuel handed to the expression parser (`exprFuel`, linear in
+    the length of the line) always suffices.  No correspondence run has ever seen it fail. -/
+def FuelAdequate : Prop := ∀ s : Str, (parseLine s).2 = false
+
+def NoOof {α : Type} (r : Out α) : Prop := r ≠ .oof
+
+theorem skipCond_flag (hF : FuelAdequate) (all : Bool) : ∀ (ls : List (Nat × Str)) (d : Nat),
+    (skipCond all d ls).2.2.2 = false := by
+  intro ls
+  induction ls with
+  | nil => intro d; rfl
+  | cons x xs ih =>
+    obtain ⟨num, t⟩ := x
+    intro d
+    have hf := hF t
+    unfold skipCond
+    split
+    · repeat' split
+      all_goals first
+        | exact ih _
+        | rfl
+    · rename_i hp; rw [hp] at hf; simp at hf
+    · exact ih _
+
+theorem skipMacro_flag (hF : FuelAdequate) : ∀ (ls acc : List (Nat × Str)), (skipMacro acc ls).2.2.2 = false := by
+  intro ls
+  induction ls with
+  | nil => intro acc; rfl
+  | cons x xs ih =>
+    obtain ⟨num, t⟩ := x
+    intro acc
+    have hf := hF t
+    unfold skipMacro
+    split
+    · repeat' split
+      all_goals first
+        | exact ih _
+        | rfl
+    · rename_i hp; rw [hp] at hf; simp at hf
+    · exact ih _
+
+theorem skipStep_flag (hF : FuelAdequate) (st : PState) (ni : NextItem) (ls : List (Nat × Str)) :
+    (skipStep st ni ls).2.2.2.2 = false := by
+  unfold skipStep
+  cases ni with
+  | newLine => cases ls <;> rfl
+  | endFile => rfl
+  | endMacro => simp only; exact skipMacro_flag hF ls []
+  | endIf => simp only; exact skipCond_flag hF false ls 0
+  | endIfAll => simp only; exact skipCond_flag hF true ls 0
+
+theorem directive_no_oof (inc : IncludeFn) (hinc : ∀ p i st, NoOof (inc p i st)) (cur : Str) (incs : List Str)
+    (st : PState) (d : Directive) (ops : DirectiveOps) (ln : Nat) : NoOof (directiveParse inc cur incs st d ops ln) := by
+  intro h
+  unfold directiveParse at h
+  dsimp only at h
+  repeat' split at h
+  all_goals first
+    | (simp [lineErr] at h; done)
+    | (rename_i heq; exact absurd heq (eval_no_oof _ _))
+    | (rename_i heq; exact hinc _ _ _ heq)
+    | (rename_i heq; unfold evalOut at heq; split at heq <;> first | (simp at heq; done) | (rename_i h2; exact absurd h2 (eval_no_oof _ _)))
+
+theorem lineStep_no_oof (hF : FuelAdequate) (inc : IncludeFn) (hinc : ∀ p i st, NoOof (inc p i st)) (cur : Str)
+    (incs : List Str) (st : PState) (idx : Nat) (text : Str) (re : Bool) : NoOof (lineStep inc cur incs st idx text re) := by
+  intro h
+  have hf := hF text
+  unfold lineStep at h
+  dsimp only at h
+  repeat' split at h
+  all_goals first
+    | (simp [lineErr] at h; done)
+    | (rename_i hp; rw [hp] at hf; simp at hf; done)
+    | (exact directive_no_oof inc hinc _ _ _ _ _ _ h)
+
+/-- the line loop ends within its bound of "remaining lines + 1" iterations -/
+theorem loop_no_oof (hF : FuelAdequate) (inc : IncludeFn) (hinc : ∀ p i st, NoOof (inc p i st)) (cur : Str) :
+    ∀ (f : Nat) (incs : List Str) (st : PState) (ni : NextItem) (ls : List (Nat × Str)), ls.length < f →
+      NoOof (parseIterWith inc cur f incs st ni ls) := by
+  intro f
+  induction f with
+  | zero => intro incs st ni ls hl; omega
+  | succ f ih =>
+    intro incs st ni ls hl h
+    simp only [parseIterWith] at h
+    have hflag := skipStep_flag hF st ni ls
+    cases hs : skipStep st ni ls with
+    | mk st1 t =>
+      obtain ⟨nx, re, rest, o⟩ := t
+      rw [hs] at h hflag
+      simp only at hflag
+      subst hflag
+      cases nx with
+      | none => simp at h
+      | some line =>
+        obtain ⟨idx, text⟩ := line
+        simp only at h
+        have hlt := Avra.Lemmas.Iter.skipStep_shrinks st ni ls st1 (idx, text) re rest false hs
+        cases hl2 : lineStep inc cur incs st1 idx text re with
+        | ok v =>
+          obtain ⟨st', incs', ni'⟩ := v
+          rw [hl2] at h
+          exact ih _ _ _ _ (by omega) h
+        | error e => rw [hl2] at h; simp at h
+        | panic p => rw [hl2] at h; simp at h
+        | oof => exact lineStep_no_oof hF inc hinc _ _ _ _ _ _ hl2
+
+theorem file_no_oof (hF : FuelAdequate) (fs : Fs) : ∀ (d : Nat) (p : Str) (i : List Str) (st : PState), NoOof (parseFileAt fs d p i st) := by
+  intro d
+  induction d with
+  | zero => intro p i st h; simp [parseFileAt] at h
+  | succ d ih =>
+    intro p i st h
+    unfold parseFileAt at h
+    dsimp only at h
+    repeat' split at h
+    all_goals first
+      | (simp at h; done)
+      | (have heq := ‹parseIterWith _ _ _ _ _ _ _ = Out.oof›
+         refine loop_no_oof hF _ ih _ _ _ _ _ _ ?_ heq
+         simp [numbered])
+
+theorem parseIter_no_oof (hF : FuelAdequate) (fs : Fs) (cur : Str) (incs : List Str) (st : PState) (ni : NextItem)
+    (ls : List (Nat × Str)) : NoOof (parseIter fs cur incs st ni ls) :=
+  loop_no_oof hF _ (file_no_oof hF fs includeDepth) _ _ _ _ _ _ (Nat.lt_succ_self _)
+
+theorem parseStr_no_oof (hF : FuelAdequate) (fs : Fs) (src : Str) (ctx : Ctx) : NoOof (parseStr fs src ctx) := by
+  intro h
+  unfold parseStr at h
+  split at h
+  all_goals first
+    | (simp at h; done)
+    | (rename_i heq; exact parseIter_no_oof hF _ _ _ _ _ _ heq)
+
+theorem parseFile_no_oof (hF : FuelAdequate) (fs : Fs) (path : Str) (incs : List Str) (ctx : Ctx) :
+    NoOof (parseFile fs path incs ctx) := by
+  intro h
+  unfold parseFile at h
+  split at h
+  all_goals first
+    | (simp at h; done)
+    | (rename_i heq; exact file_no_oof hF _ _ _ _ _ heq)
+
+theorem macroExpand_no_oof (hF : FuelAdequate) (fs : Fs) (macros : List (Str × List (Nat × Str))) (st : PState)
+    (ln : Nat) (name : Str) (ops : List IOp) : NoOof (macroExpand fs macros st ln name ops) := by
+  intro h
+  unfold macroExpand at h
+  dsimp only at h
+  repeat' split at h
+  all_goals first
+    | (simp [lineErr] at h; done)
+    | (rename_i heq; exact parseIter_no_oof hF _ _ _ _ _ _ heq)
+
+theorem pass0Segs_no_oof (inner : PState → List (Nat × Item) → Out PState) (hin : ∀ st its, NoOof (inner st its)) :
+    ∀ (segs : List Segment) (st : PState), NoOof (pass0Segs inner st segs) := by
+  intro segs
+  induction segs with
+  | nil => intro st h; simp [pass0Segs] at h
+  | cons x rest ih =>
+    intro st h
+    unfold pass0Segs at h
+    repeat' split at h
+    all_goals first
+      | (exact ih _ h)
+      | (exact hin _ _ h)
+      | (simp at h; done)
+
+/-- macro calls may be expanded (`allow`): the nested level must not give up -/
+theorem pass0Items_no_oof (hF : FuelAdequate) (fs : Fs) (macros : List (Str × List (Nat × Str)))
+    (inner : PState → List (Nat × Item) → Out PState) (hin : ∀ st its, NoOof (inner st its)) (allow : Bool) :
+    ∀ (its : List (Nat × Item)) (st : PState), NoOof (pass0Items fs macros allow inner st its) := by
+  intro its
+  induction its with
+  | nil => intro st h; simp [pass0Items] at h
+  | cons x rest ih =>
+    obtain ⟨ln, it⟩ := x
+    intro st h
+    unfold pass0Items at h
+    dsimp only at h
+    repeat' split at h
+    all_goals first
+      | (exact ih _ h)
+      | (simp [lineErr] at h; done)
+      | (rename_i heq; exact macroExpand_no_oof hF _ _ _ _ _ _ heq)
+      | (exact pass0Segs_no_oof inner hin _ _ h)
+      | (exact hin _ _ h)
+
+/-- at MAX_MACRO_DEPTH nothing is expanded any more, so the (absent) next level is never asked -/
+theorem pass0Items_deepest_no_oof (fs : Fs) (macros : List (Str × List (Nat × Str)))
+    (inner : PState → List (Nat × Item) → Out PState) :
+    ∀ (its : List (Nat × Item)) (st : PState), NoOof (pass0Items fs macros false inner st its) := by
+  intro its
+  induction its with
+  | nil => intro st h; simp [pass0Items] at h
+  | cons x rest ih =>
+    obtain ⟨ln, it⟩ := x
+    intro st h
+    unfold pass0Items at h
+    dsimp only at h
+    repeat' split at h
+    all_goals first
+      | (exact ih _ h)
+      | (simp [lineErr] at h; done)
+      | (exfalso; simp_all; done)
+
+theorem pass0At_no_oof (hF : FuelAdequate) (fs : Fs) (macros : List (Str × List (Nat × Str))) :
+    ∀ (d : Nat) (st : PState) (its : List (Nat × Item)), NoOof (pass0At fs macros d st its) := by
+  intro d
+  induction d with
+  | zero => intro st its; exact pass0Items_deepest_no_oof fs macros _ its st
+  | succ d ih => intro st its; exact pass0Items_no_oof hF fs macros _ ih true its st
+
+theorem pass0_no_oof (hF : FuelAdequate) (fs : Fs) (parsed : ParseResult) (ctx : Ctx) : NoOof (pass0 fs parsed ctx) := by
+  unfold pass0
+  dsimp only
+  generalize ({ ctx := ctx, segments := [], messages := parsed.messages } : PState) = st0
+  generalize parsed.segments = segs
+  induction segs generalizing st0 with
+  | nil => intro h; simp [pass0.go] at h
+  | cons x rest ih =>
+    intro h
+    unfold pass0.go at h
+    repeat' split at h
+    all_goals first
+      | (exact ih _ h)
+      | (exact pass0At_no_oof hF _ _ _ _ _ h)
+      | (simp at h; done)
+
+theorem consItem_no_oof (x : Nat × Item) (r : Out (Nat × List (Nat × Item) × Ctx)) (h : NoOof r) : NoOof (consItem x r) := by
+  intro hs
+  cases r with
+  | ok v => obtain ⟨a, b, c⟩ := v; simp [consItem] at hs
+  | error e => simp [consItem] at hs
+  | panic p => simp [consItem] at hs
+  | oof => exact h rfl
+
+theorem pass1Items_no_oof (t : SegT) (limit : Nat) : ∀ (its : List (Nat × Item)) (cur : Nat) (ctx : Ctx),
+    NoOof (pass1Items t limit its cur ctx) := by
+  intro its
+  induction its with
+  | nil => intro cur ctx h; unfold pass1Items at h; split at h <;> simp [noLineErr] at h
+  | cons x rest ih =>
+    obtain ⟨ln, it⟩ := x
+    intro cur ctx h
+    unfold pass1Items at h
+    repeat' split at h
+    all_goals first
+      | (exact ih _ _ h)
+      | (exact consItem_no_oof _ _ (ih _ _) h)
+      | (simp [lineErr] at h; done)
+
+theorem pass1go_no_oof (messages : List Str) (dev : Device) : ∀ (segs : List Segment) (a b c : Nat)
+    (out : List Segment) (cx : Ctx), NoOof (pass1.go messages dev segs a b c out cx) := by
+  intro segs
+  induction segs with
+  | nil => intro a b c out cx h; simp [pass1.go] at h
+  | cons x rest ih =>
+    intro a b c out cx h
+    unfold pass1.go at h
+    dsimp only at h
+    repeat' split at h
+    all_goals first
+      | (exact ih _ _ _ _ _ h)
+      | (simp [noLineErr] at h; done)
+      | (rename_i heq; exact pass1Items_no_oof _ _ _ _ _ heq)
+
+theorem resolveOne_some (c : Ctx) (a : Acc) (o : IOp) : (resolveOne c a o).isSome = true := by
+  unfold resolveOne
+  cases a with
+  | reg => rfl
+  | val =>
+    simp only
+    unfold asVal
+    cases o with
+    | e e => simp only; cases h : eval c e with
+      | ok v => rfl
+      | err k => rfl
+      | oof => exact absurd h (eval_no_oof c e)
+    | r8 n => rfl
+    | index i => rfl
+  | idx =>
+    simp only
+    unfold asIdx
+    cases o with
+    | index i =>
+      simp only [Option.isSome_map]
+      unfold resolveIndex
+      cases i with
+      | postIncE r e =>
+        simp only
+        cases h : eval c e with
+        | ok v => rfl
+        | err k => rfl
+        | oof => exact absurd h (eval_no_oof c e)
+      | none r => rfl
+      | postInc r => rfl
+      | preDec r => rfl
+    | e e => rfl
+    | r8 n => rfl
+
+theorem resolve_some (c : Ctx) : ∀ (accs : List Acc) (args : List IOp), (resolve c accs args).isSome = true := by
+  intro accs args
+  induction args generalizing accs with
+  | nil => cases accs <;> rfl
+  | cons o os ih =>
+    cases accs with
+    | nil => simp only [resolve, Option.isSome_map]; exact ih []
+    | cons a as =>
+      simp only [resolve]
+      have h1 := resolveOne_some c a o
+      have h2 := ih as
+      cases hr : resolveOne c a o with
+      | none => rw [hr] at h1; cases h1
+      | some x =>
+        cases hs : resolve c as os with
+        | none => rw [hs] at h2; cases h2
+        | some xs => rfl
+
+theorem process_no_oof (c : Ctx) (op : Op) (args : List IOp) (addr : Nat) : process c op args addr ≠ .oof := by
+  intro h
+  unfold process at h
+  repeat' split at h
+  all_goals first
+    | (simp at h; done)
+    | (rename_i heq; have := resolve_some c (accessors op) args; rw [heq] at this; cases this)
+
+theorem operandBytes_no_oof (c : Ctx) (dt : DataDefine) (o : Operand) : operandBytes c dt o ≠ .oof := by
+  intro h
+  unfold operandBytes at h
+  repeat' split at h
+  all_goals first
+    | (simp at h; done)
+    | (rename_i heq; exact absurd heq (eval_no_oof _ _))
+
+theorem dataBytes_no_oof (c : Ctx) (dt : DataDefine) : ∀ (ops : List Operand), dataBytes c dt ops ≠ .oof := by
+  intro ops
+  induction ops with
+  | nil => simp [dataBytes]
+  | cons o more ih =>
+    intro h
+    unfold dataBytes at h
+    cases hb : operandBytes c dt o with
+    | ok b =>
+      rw [hb] at h
+      dsimp only at h
+      cases hbs : dataBytes c dt more with
+      | ok bs => rw [hbs] at h; simp at h
+      | err => rw [hbs] at h; simp at h
+      | oof => exact ih hbs
+    | err => rw [hb] at h; simp at h
+    | oof => exact operandBytes_no_oof c dt o hb
+
+theorem pass2Items_no_oof (t : SegT) : ∀ (its : List (Nat × Item)) (cur : Nat) (acc : List Nat) (ctx : Ctx),
+    NoOof (pass2Items t its cur acc ctx) := by
+  intro its
+  induction its with
+  | nil => intro cur acc ctx h; simp [pass2Items] at h
+  | cons x rest ih =>
+    obtain ⟨ln, it⟩ := x
+    intro cur acc ctx h
+    unfold pass2Items at h
+    dsimp only at h
+    repeat' split at h
+    all_goals first
+      | (exact ih _ _ _ h)
+      | (simp [lineErr] at h; done)
+      | (rename_i heq; exact absurd heq (process_no_oof _ _ _ _))
+      | (rename_i heq; exact absurd heq (dataBytes_no_oof _ _ _))
+      | (rename_i heq; exact absurd heq (eval_no_oof _ _))
+
+theorem pass2go_no_oof (p1 : Pass1Result) : ∀ (segs : List Segment) (code ee : List Nat) (ctx : Ctx),
+    NoOof (pass2.go p1 segs code ee ctx) := by
+  intro segs
+  induction segs with
+  | nil => intro code ee ctx h; simp [pass2.go] at h
+  | cons x rest ih =>
+    intro code ee ctx h
+    unfold pass2.go at h
+    dsimp only at h
+    repeat' split at h
+    all_goals first
+      | (exact ih _ _ _ h)
+      | (simp at h; done)
+      | (rename_i heq; exact pass2Items_no_oof _ _ _ _ _ heq)
+
+theorem buildFromParsed_no_oof (hF : FuelAdequate) (fs : Fs) (st : PState) : NoOof (buildFromParsed fs st) := by
+  intro h
+  unfold buildFromParsed at h
+  dsimp only at h
+  repeat' split at h
+  all_goals first
+    | (simp [noLineErr] at h; done)
+    | (rename_i heq; exact pass2go_no_oof _ _ _ _ _ heq)
+    | (rename_i heq; exact pass1go_no_oof _ _ _ _ _ _ _ _ heq)
+    | (rename_i heq; exact pass0_no_oof hF _ _ _ heq)
+
+/-- **Termination within the explicit bounds.**  If the expression parser's fuel is adequate
+    (`FuelAdequate`, the one ingredient left to the correspondence run), then for EVERY source
+    text, file system and include-directory list the model answers with a result or an error:
+    the line loop ends within "number of lines + 1" iterations, includes within
+    MAX_INCLUDE_DEPTH, macro expansion within MAX_MACRO_DEPTH, symbol expansion within
+    MAX_SYMBOL_DEPTH (`eval_no_oof`), and the three passes are structural recursions. -/
+theorem build_always_answers (hF : FuelAdequate) (fs : Fs) (src path : Str) (incs : List Str) :
+    (∃ b, buildStr fs src = .ok b) ∨ (∃ e, buildStr fs src = .error e) := by
+  have hp := (build_never_panics fs src path incs).1
+  have ho : NoOof (buildStr fs src) := by
+    intro h
+    unfold buildStr at h
+    split at h
+    all_goals first
+      | (exact buildFromParsed_no_oof hF _ _ h)
+      | (simp at h; done)
+      | (rename_i heq; exact parseStr_no_oof hF _ _ _ heq)
+  cases hb : buildStr fs src with
+  | ok b => exact Or.inl ⟨b, rfl⟩
+  | error e => exact Or.inr ⟨e, rfl⟩
+  | panic s => exact absurd hb (hp s)
+  | oof => exact absurd hb ho
 
 /-- expression evaluation is total and never panics: its result type has no such outcome, and
     the arithmetic the Rust code checks (`checked_*`, shift counts, division by zero) yields
